@@ -170,6 +170,14 @@ fn explore(ctx: &Ctx) -> Outcome {
             }
         }
     }
+    // inputs longer than 64 KiB (an index or window length kept in 16 bits shows only here)
+    for &p in &[1usize, 2, 7, 100, 2000, 4095, 4096] {
+        for gen in 0..2 {
+            for n in [70_000usize, 140_000] {
+                grid.push((gen, p, n));
+            }
+        }
+    }
     let t = grid
         .par_iter()
         .fold(Tally::new, |mut t, &(gen, p, n)| {
@@ -189,7 +197,7 @@ fn explore(ctx: &Ctx) -> Outcome {
     total.sample(json!({"kind": "expansion", "desc": "norepeat n=64"}));
 
     let mut o = total.into_outcome(
-        "expansion bound |out| <= header + n + ceil(n/8) asserted for both codecs on every input of the small-alphabet families, incompressible data of every length 0..=64 (+ long ones), header-boundary lengths and the structure grid; effectiveness bound asserted on the periodic grid periods x 2 pattern generators x 9 total lengths; non-trivial = periodic-grid cases",
+        "expansion bound |out| <= header + n + ceil(n/8) asserted for both codecs on every input of the small-alphabet families, incompressible data of every length 0..=64 (+ long ones), header-boundary lengths and the structure grid; effectiveness bound asserted on the periodic grid periods x 2 pattern generators x 9 total lengths (plus 7 periods x lengths 70 000 and 140 000); non-trivial = periodic-grid cases",
         true,
         vec![("layers", json!(layers))],
     );
